@@ -16,6 +16,12 @@ CHECKS = {
          'Every acknowledgement, PUBLISH count and push frame of the explored histories is matched against the per-subscriber inbox of the spec; a final quiesce requires that nothing owed is missing.'),
  'C05': ('model_checking', 'enumerated pipelines x segmentations written to the real server (each chunk a separate read via the loop-iteration hook), i-th reply paired with i-th request and with the server-side command log, TLC trace validation; TLC model checking of the transcribed parser for chunking independence (shared with C20)',
          'For every explored (pipeline, segmentation) the sequence of reply frames read by an independent RESP reader is, request by request, what the spec allows and what the server computed; hostile bytes are placed in every argument position; protocol violations must be answered by an error.'),
+ 'C08': ('model_checking', 'TLC model checking of WATCH dirtiness against a ghost over all interleavings of 2 connections (MC_Txn) + enumerated scenarios <pre-state x write command x path x target> on the real server + TLC trace validation',
+         'For every enumerated scenario the EXEC reply (nil vs array) and the dataset afterwards are what the spec requires: abort when a watched entry changed by any listed means, no abort when nothing addressed it.'),
+ 'C17': ('model_checking', 'TLC model checking of the authentication gate (MC_Txn with Password) + generated tests + every dispatched command name sent unauthenticated on a requirepass server + TLC trace validation incl. the view of an authenticated control connection',
+         'Every command name the server dispatches (checked against the spec table) is refused with one error reply and no effect for unauthenticated connections in the explored states; only the exact password authenticates.'),
+ 'C18': ('model_checking', 'TLC model checking of the database frame property (MC_Txn/MC_C18) + generated tests + random multi-database histories with 16-way dumps + TLC trace validation',
+         'Every reply and the dump of all 16 databases after the explored histories match a 16-way model in which a command touches only the database selected on its connection at that time.'),
 }
 NOT_YET = {}
 
